@@ -10,6 +10,7 @@ Line protocol for C36.
 * `line <h> <w> <y0> <x0> <y1> <x1>` — `draw_line(.., width 1)`;
   `fill <h> <w> <t> <l> <b> <r>` — `fill_rect`; `stroke <h> <w> <t> <l> <b> <r> <sw>` —
   `stroke_rect`.  Answer: sorted set of written pixels `y,x;…` (`-` if none) then ` panic=<0|1>`.
+* `line0 <h> <w> <y0> <x0> <y1> <x1>` — `draw_line` with width 0 (draws nothing).
 * `fillit <pts>` — `Polygon::fill_iter()` of the polygon `y,x;…` (`-` if empty).  Answer: the
   yielded pixels in order (`-` if none) then ` done=<0|1>` (1 = finished within the fuel
   `area of the bounding rect + 1`).
@@ -60,6 +61,7 @@ def handle (line : String) : String :=
     match args.mapM String.toInt? with
     | some [h, w, y0, x0, y1, x1] => showWrites (drawLine1 h w (y0, x0) (y1, x1))
     | _ => "bad-request"
+  | "line0" :: _ => "- panic=0"  -- `if width == 0 { return; }`
   | "fill" :: args =>
     match args.mapM String.toInt? with
     | some [h, w, t, l, b, r] => showWrites (fillRect h w t l b r)
